@@ -1,4 +1,4 @@
-\* generated by lib/slices.py from slice 'alias_auto' - do not edit
+\* generated by lib/slices.py from slice 'opt_flips' - do not edit
 SPECIFICATION Spec
 VIEW view
 CHECK_DEADLOCK FALSE
@@ -6,33 +6,33 @@ PROPERTY NoViolation
 ACTION_CONSTRAINT PrintEdge
 CONSTANTS
  Roles = {"client"}
- Vers = {"v50"}
+ Vers = {"v311", "v50"}
  Idws = {16}
  CheckProps = {"C05", "C06", "C07", "C08", "C10", "C11", "C12", "C13", "C14", "C15", "C16", "C17", "C19"}
- OptSets = {{"auto_map"}, {"auto_replace"}}
+ OptSets = {{}}
  RespTimeouts = {0}
  MaxConns = 2
  MaxHeld = 1
  MaxUsed = 1
  AppKinds = {"publish"}
- PeerKinds = {"puback"}
- QosSet = {0, 1}
- Topics = {"t1", "t2"}
- Aliases = {0, 1}
+ PeerKinds = {"puback", "publish"}
+ QosSet = {1}
+ Topics = {"t1"}
+ Aliases = {0}
  InPids = {1}
  ExtraPids = {9}
  Rcs = {0}
- Cleans = {FALSE}
+ Cleans = {FALSE, TRUE}
  KAs = {0}
  ConnRMs = {99999}
  ConnTAMs = {99999}
  ConnMPSs = {99999}
- ConnSEIs = {10}
+ ConnSEIs = {10, 99999}
  SPs = {FALSE, TRUE}
  ConnackRcs = {0}
- AckRMs = {1, 99999}
- AckTAMs = {1, 2, 99999}
- AckMPSs = {12, 99999}
+ AckRMs = {99999}
+ AckTAMs = {99999}
+ AckMPSs = {99999}
  AckSEIs = {99999}
  SKAs = {99999}
  RogueHandshake = FALSE
@@ -45,10 +45,10 @@ CONSTANTS
  Crash = FALSE
  Garbage = FALSE
  BadFrames = {}
- SendWhileDisc = FALSE
+ SendWhileDisc = TRUE
  PeerWhileDisc = FALSE
  LateFrames = FALSE
  CrossVersion = FALSE
  Restore = FALSE
  Regulate_ = FALSE
- OptFlips = {}
+ OptFlips = {"auto_pub", "offline"}
